@@ -153,6 +153,17 @@ func (e *Engine) closureFor(prop string) []string {
 			continue
 		}
 		if con := e.cs.Funcs[k]; con != nil && con.Trusted != "" {
+			// a trusted function's body is not executed symbolically, but its effects clauses (pure / reads / assigns) are
+			// discharged on go/ssa and refer to its callees' clauses: those callees that themselves carry effects clauses
+			// belong to the closure (their obligations must be generated), others are reached through other roots
+			out := map[string]bool{}
+			e.calleesOf(fi, map[string]bool{}, out)
+			for c := range out {
+				if cc, has := e.cs.Funcs[c]; has && !set[c] && cc.Trusted != "" && (cc.Pure || len(cc.Reads) > 0) {
+					set[c] = true
+					work = append(work, c)
+				}
+			}
 			continue
 		}
 		out := map[string]bool{}
